@@ -3,6 +3,7 @@
   (C07): the only write-through effects are interned names (and, before the C07 fix, vectors).
 -/
 import Nervus.Proofs.EngineHist
+import Nervus.Proofs.StoreRoot
 namespace Nervus.Storage
 open Nervus.GraphSpec (TxOp Op)
 
@@ -14,24 +15,25 @@ structure SameView (s s' : Engine) : Prop where
   segStore : s'.segStore = s.segStore
   store : s'.store = s.store
   root : s'.propsRoot = s.propsRoot
+  storeRoot : s'.storeRoot = s.storeRoot
   vecs : s'.vecs = s.vecs
   epoch : s'.epoch = s.epoch
   ckpt : s'.ckptTxid = s.ckptTxid
   pre : s.interner <+: s'.interner
 
 theorem SameView.refl (s : Engine) : SameView s s :=
-  ⟨rfl, rfl, rfl, rfl, rfl, rfl, rfl, rfl, rfl, List.prefix_refl _⟩
+  ⟨rfl, rfl, rfl, rfl, rfl, rfl, rfl, rfl, rfl, rfl, List.prefix_refl _⟩
 
 theorem SameView.trans {a b c : Engine} (h1 : SameView a b) (h2 : SameView b c) : SameView a c :=
   ⟨h2.runs.trans h1.runs, h2.idmap.trans h1.idmap, h2.segs.trans h1.segs, h2.segStore.trans h1.segStore,
-   h2.store.trans h1.store, h2.root.trans h1.root, h2.vecs.trans h1.vecs, h2.epoch.trans h1.epoch,
+   h2.store.trans h1.store, h2.root.trans h1.root, h2.storeRoot.trans h1.storeRoot, h2.vecs.trans h1.vecs, h2.epoch.trans h1.epoch,
    h2.ckpt.trans h1.ckpt, h1.pre.trans h2.pre⟩
 
 theorem getOrCreateLabel_view (s : Engine) (nm : Nat) : SameView s (s.getOrCreateLabel nm).1 := by
   unfold Engine.getOrCreateLabel
   split
   · exact SameView.refl s
-  · exact ⟨rfl, rfl, rfl, rfl, rfl, rfl, rfl, rfl, rfl, List.prefix_append _ _⟩
+  · exact ⟨rfl, rfl, rfl, rfl, rfl, rfl, rfl, rfl, rfl, rfl, List.prefix_append _ _⟩
 
 /-- one staged write, when vectors are staged (after the C07 fix) -/
 theorem stepTx_view (c : Cfg) (hc : c.vecStaged = true) (s : Engine) (t : Txn) (op : TxOp) :
@@ -111,12 +113,12 @@ theorem SameView.reads (c : Cfg) {s s' : Engine} (h : SameView s s') :
   · funext n; unfold Engine.isTombstoned; rw [h.runs]
   · funext n; unfold Engine.resolveExternal; rw [h.idmap]
   · funext n; unfold Engine.nodeLabels; rw [h.idmap]
-  · funext n k; unfold Engine.nodeProp; rw [h.runs, h.root, h.store]
-  · funext n; unfold Engine.nodeProps; rw [h.runs, h.root, h.store]
+  · funext n k; unfold Engine.nodeProp; rw [h.runs, visibleStore_congr h.store h.root h.storeRoot]
+  · funext n; unfold Engine.nodeProps; rw [h.runs, h.root, visibleStore_congr h.store h.root h.storeRoot]
   · funext n rel; unfold Engine.neighbors; rw [h.runs, h.segs]
   · funext n rel; unfold Engine.incoming; rw [h.runs, h.segs]
-  · funext e k; unfold Engine.edgeProp; rw [h.runs, h.root, h.store]
-  · funext e; unfold Engine.edgeProps; rw [h.runs, h.root, h.store]
+  · funext e k; unfold Engine.edgeProp; rw [h.runs, visibleStore_congr h.store h.root h.storeRoot]
+  · funext e; unfold Engine.edgeProps; rw [h.runs, h.root, visibleStore_congr h.store h.root h.storeRoot]
   · funext x; unfold Engine.lookupInternal; rw [h.idmap]
   · unfold Engine.vecNodes; rw [h.vecs, h.runs]
 
